@@ -80,8 +80,12 @@ def api_level(rep, tier_, rng):
 
 
 def run(rep, tier_, rng):
-    run_engine_a(rep, "C15", tier_, rng, FNS, TAGS, n_quick=2500, n_thorough=40000, extra=api_level,
-                 make=allcases.make, spec=allcases.spec)
+    # |z|, exp, cos, sin on rectangles: the model takes the point-function values recorded from the live call as inputs
+    ELEM = ["mpci_abs", "mpci_exp_from", "mpci_cos_from", "mpci_sin_from"]
+    def make(rng_, fn, n):
+        return allcases.make(rng_, fn, max(50, n // 16) if fn in ELEM else n)
+    run_engine_a(rep, "C15", tier_, rng, FNS + ELEM, TAGS, n_quick=2500, n_thorough=40000, extra=api_level,
+                 make=make, spec=allcases.spec)
     from props import c15e
     rep.coverage.update(c15e.run_elementary(rep, tier_, rng, budget=(60 if tier_ == "quick" else 600)))
     rep.assumptions.append("abs/exp/log/cos/sin on rectangles are decided point-wise at sampled member points by Coq Interval certificates (a necessary condition only; exploration level for that part); the gamma family on rectangles is not decided by this check")
